@@ -363,11 +363,15 @@ def multiget_suite(ctx):
     rng = ctx.rng
     n = ctx.n(700, 10000)
     names = ["a b.ics", "é;x?.ics"]
-    with X.fast_server(CONF) as srv:
-        srv.mkcol("/u/")
-        srv.mkcalendar("/u/cal/")
-        for i, nm in enumerate(names):
-            assert srv.put("/u/cal/" + nm, event("mg%d" % i))[0] == 201
+    import contextlib
+    with contextlib.ExitStack() as stack:
+        # the model does not take [encoding] request: the decoding of hrefs must not depend on it
+        srvs = [stack.enter_context(X.fast_server(with_encoding(CONF, enc))) for enc in ("utf-8", "iso-8859-1")]
+        for srv in srvs:
+            srv.mkcol("/u/")
+            srv.mkcalendar("/u/cal/")
+            for i, nm in enumerate(names):
+                assert srv.put("/u/cal/" + nm, event("mg%d" % i))[0] == 201
         cases = []
         fixed = ["/u/cal/a%20b.ics", "/u/cal/a b.ics", "/u/cal/%C3%A9%3Bx%3F.ics", "/u/cal/é;x?.ics", "/u/cal/é;x%3F.ics",
                  "/u/cal/a;b.ics", "/u/cal/a%3Bb.ics", "/u/cal/", "/u/cal", "/u/", "/", "", "http://h/u/cal/a%20b.ics",
@@ -398,9 +402,10 @@ def multiget_suite(ctx):
                 href = rng.choice([urllib.parse.quote(sib), sib]) + "/u/cal/" + urllib.parse.quote(rng.choice(names))
             if not href or not X.xml_ok(href) or not X.xml_ok(base):
                 continue            # <D:href/> has text None: urlsplit(None) fails an assertion (500); not a URL
-            env = {"REQUEST_METHOD": "REPORT", "PATH_INFO": "/u/cal/"}
+            env = {"REQUEST_METHOD": "REPORT", "PATH_INFO": "/u/cal/", "CONTENT_TYPE": "text/xml; charset=utf-8"}
             if base:
                 env["HTTP_X_SCRIPT_NAME"] = base
+            srv = srvs[k % 2]
             st, h, body = X.call_app(srv, env, X.multiget_body([href]))
             if st == 207:
                 rs = X.response_status_map(body)
@@ -461,7 +466,7 @@ def destination_suite(ctx):
             if k % 150 == 0:
                 # Radicale's history cache makes every write O(items ever stored in the collection): fresh store per chunk
                 stack.close()
-                srv = stack.enter_context(X.fast_server(CONF))
+                srv = stack.enter_context(X.fast_server(with_encoding(CONF, ENCODINGS[(k // 150) % len(ENCODINGS)])))
                 srv.mkcol("/u/")
                 srv.mkcalendar("/u/cal/")
                 srv.mkcalendar("/u/cal2/")
@@ -539,7 +544,7 @@ def run_scenario(sc):
     The parts (item hrefs, collection hrefs, MOVE, Location) are checked independently."""
     from vlib.impl import Server
     mode, prefix, user, col, kind = sc["mode"], sc["prefix"], sc["user"], sc["col"], sc["kind"]
-    conf = {"auth": {"type": "none"}, "web": {"type": sc.get("web", "internal")}}
+    conf = with_encoding({"auth": {"type": "none"}, "web": {"type": sc.get("web", "internal")}}, sc.get("encoding"))
     if mode == "config-full-xff":
         conf["server"] = {"script_name": prefix}
     host_hdr = X.HOSTNAME
@@ -745,6 +750,11 @@ def gen_scenario(rng, mode=None, prefix=None):
               style=rng.choice(["strict", "pchar"]), web=rng.choice(["internal", "internal", "none"]))
     if mode == "configfile-full-xff":
         sc["prefix"], sc["file_value"] = gen_file_prefix(rng)
+    elif rng.random() < 0.4:
+        # a legacy charset for request bodies; credentials are read in that charset too, so the login stays ASCII
+        sc["encoding"] = rng.choice(ENCODINGS[1:])
+        while not sc["user"].isascii() or ":" in sc["user"]:
+            sc["user"] = X.rand_component(rng, 5)
     return sc
 
 
@@ -788,11 +798,20 @@ FIXED_SCENARIOS += [
          names=["a.ics"], move_names=["x.ics"]),
     dict(mode="configfile-full-xff", prefix="/é 100%;x #y", file_value="/é 100%;x #y  ", user="u #1", col="c ;d", kind="C",
          names=["a #b.ics"], move_names=["x ;y.ics"], web="none"),
+    # [encoding] request = a legacy charset: URLs stay UTF-8
+    dict(mode="none", prefix="", user="u", col="c\u00e9", kind="C", names=["caf\u00e9.ics", "\u20ac.ics"], move_names=["na\u00efve.ics", "\u65e5.ics"],
+         encoding="iso-8859-1"),
     # [web] type = none
     dict(mode="proxy-strip", prefix="/my app", user="u", col="cal", kind="C", names=["a.ics"], move_names=["x.ics"], web="none"),
 ]
 AMBIGUOUS_SCENARIO = dict(mode="proxy-strip-xff", prefix="/radicale", user="radicale", col="cal", kind="C", names=["a.ics"],
                           move_names=["x.ics"])
+
+
+def sc_ambiguous(sc):
+    """The known class: a proxy strips the prefix AND sends X-Forwarded-*, and the collection path itself lies below the prefix."""
+    return bool(sc["mode"] == "proxy-strip-xff" and sc["prefix"]
+                and ("/%s/%s/" % (sc["user"], sc["col"])).startswith(sc["prefix"] + "/"))
 
 
 def sc_nontrivial(sc):
@@ -817,6 +836,20 @@ def mon_request_line(ctx, names):
                     ctx.violation("request line: %r written as %r reaches Radicale as %r" % (path, t, got),
                                   dict(function="radicale.server.RequestHandler.get_environ", target=t, expected=path, got=got))
                     return
+    # every request target, also one whose escapes are not UTF-8, must give a PATH_INFO the server can hand out again:
+    # code points that str.encode('utf-8') accepts (make_href raises on anything else)
+    from radicale import xmlutils, pathutils
+    for tail in MALFORMED_TAILS + ["%%%02X" % b for b in range(128, 256)] + ["%%%02X%%%02X" % (a, b) for a in (0xC2, 0xE0, 0xED, 0xF0, 0xF4)
+                                                                                for b in (0x7F, 0x80, 0x9F, 0xA0, 0xBF, 0xC0)]:
+        t = "/u/cal/" + tail
+        n += 1
+        got = X.get_environ_only(t)
+        try:
+            xmlutils.make_href("", pathutils.sanitize_path(got))
+        except UnicodeEncodeError as e:
+            ctx.violation("request line %r reaches Radicale as %r, a name no href can be made for (%s)" % (t, got, e),
+                          dict(function="radicale.server.RequestHandler.get_environ", target=t, expected=urllib.parse.unquote(t), got=got))
+            return
     ctx.extra["monitor_request_lines"] = n
 
 
@@ -838,7 +871,22 @@ def spellings(rng, path):
     return out
 
 
+PROPFIND_ETAG = ('<?xml version="1.0"?><D:propfind xmlns:D="DAV:"><D:prop><D:getetag/><D:resourcetype/></D:prop></D:propfind>')
 SD_CONF = {"auth": {"type": "none"}, "rights": {"type": "vlib.x_c18_rights"}, "web": {"type": "none"}}
+# [encoding] request is the charset of request BODIES (and of the answers); URLs are UTF-8 whatever it says
+ENCODINGS = ["utf-8", "iso-8859-1", "cp1252"]
+
+
+def with_encoding(conf, enc):
+    c = {k: dict(v) for k, v in conf.items()}
+    if enc and enc != "utf-8":
+        c["encoding"] = {"request": enc}
+    return c
+
+
+# URLs with percent-encoded bytes that are not UTF-8 (legacy latin-1 clients, truncated / overlong / surrogate sequences)
+MALFORMED_TAILS = ["caf%E9.ics", "%E9", "x%FFy.ics", "a%C3", "%C3%28.ics", "%ED%A0%80z", "%C0%AFq", "x%E2%82.ics", "%80", "%F4%90%80%80",
+                   "na%EFve%20%E9t%E9", "%FE%FF", "ok%C3%A9%E9"]
 
 
 def sd_front(srv, base):
@@ -849,15 +897,31 @@ def sd_front(srv, base):
     return fr
 
 
-def sd_check_url(srv, fr, base, url, path, uid):
-    """One URL `url` that should denote the storage path `path` (below /u/cal/): request line, multiget, Destination.
+def sd_check_url(srv, fr, base, url, path, uid, enc="utf-8"):
+    """One URL `url` that should denote the storage path `path` (below /u/cal/; None = whatever name the request line
+    gives it, for URLs with malformed escapes): request line, listing, multiget, Destination.
     Returns None or (what, replay dict)."""
     from vlib.impl import event
-    rep = dict(monitor="same_decoding", kind="url", base=base, url=url, expected=path)
+    rep = dict(monitor="same_decoding", kind="url", base=base, url=url, expected=path, encoding=enc)
     st = fr.send("PUT", url, data=event(uid))[0]
     where1 = find_uid(srv.folder, uid)
-    if st != 201 or where1 != [path]:
-        return "request line %r does not reach %r" % (url, path), dict(rep, status=st, found=where1)
+    if st != 201 or len(where1) != 1 or (path is not None and where1 != [path]):
+        return "request line %r does not reach %r" % (url, path or "one item"), dict(rep, status=st, found=where1)
+    path = where1[0]
+    # whatever was accepted must be handed out again: the collection can be listed and the listed href leads to the item
+    st, h, b = fr.send("PROPFIND", fr.client_url("/u/cal/"), headers={"Depth": "1"}, data=PROPFIND_ETAG)
+    if st != 207:
+        return ("after PUT %r (stored as %r) the collection cannot be listed: PROPFIND Depth 1 answers %d" % (url, path, st),
+                dict(rep, status=st, found=where1))
+    reached = False
+    for href, etag, is_coll in X.etags_of(b):
+        if not is_coll and etag:
+            st2, h2, b2 = fr.send("GET", href)
+            if st2 == 200 and ("UID:" + uid).encode() in b2:
+                reached = True
+    if not reached:
+        return ("no href of the listing leads to the item PUT as %r (stored as %r)" % (url, path),
+                dict(rep, found=where1, hrefs=[r[0] for r in X.etags_of(b)][:5]))
     st, h, b = fr.send("REPORT", fr.client_url("/u/cal/"), data=X.multiget_body([url.split("#")[0]]))
     rs = X.response_status_map(b) if st == 207 else []
     if [r[1] for r in rs] != [200] or ("UID:" + uid) not in (rs[0][2] or ""):
@@ -872,7 +936,7 @@ def sd_check_url(srv, fr, base, url, path, uid):
     if st != 201 or where2 != [path]:
         return ("Destination %r reaches %r, the same URL as request line reaches %r" % (url, where2, path),
                 dict(rep, status=st, found=where2))
-    fr.send("DELETE", fr.client_url(path))
+    fr.send("DELETE", url.split("#")[0].split("?")[0])
     return None
 
 
@@ -900,10 +964,14 @@ def mon_same_decoding(ctx):
     rng = ctx.rng
     n = ctx.n(240, 3000)
     checked = 0
-    chunk = 60        # Radicale's history cache makes every write O(items ever stored in the collection): fresh store per chunk
+    chunk = 30        # Radicale's history cache makes every write O(items ever stored in the collection): fresh store per chunk
+    nchunk = 0
     for base in ["", "/radicale", "/r", "/my app"]:
         for start in range(0, n // 4, chunk):
-            with X.fast_server(SD_CONF) as srv:
+            enc = ENCODINGS[nchunk % len(ENCODINGS)] if nchunk % 2 else "utf-8"      # every other store: a legacy body charset
+            nchunk += 1
+            ctx.count("same_decoding:encoding:" + enc)
+            with X.fast_server(with_encoding(SD_CONF, enc)) as srv:
                 fr = sd_front(srv, base)
                 if base == "/r":
                     for top in ("/2u/", "/xu/"):
@@ -911,9 +979,14 @@ def mon_same_decoding(ctx):
                 for k in range(start, min(start + chunk, n // 4)):
                     name = X.rand_component(rng, 8)
                     path = "/u/cal/" + name
-                    for url in rng.sample(spellings(rng, base + path), 3):
+                    urls = [(u, path) for u in rng.sample(spellings(rng, base + path), 3)]
+                    if k % 3 == 0:
+                        # a URL whose escapes are not UTF-8: no expected name, but one name for all three reading sites
+                        urls.append((urllib.parse.quote(base + "/u/cal/") + rng.choice(["", "x", urllib.parse.quote(name[:3], safe="")])
+                                     + rng.choice(MALFORMED_TAILS), None))
+                    for url, want in urls:
                         checked += 1
-                        bad = sd_check_url(srv, fr, base, url, path, "sd%d" % checked)
+                        bad = sd_check_url(srv, fr, base, url, want, "sd%d" % checked, enc)
                         if bad:
                             ctx.violation(bad[0], bad[1])
                             return
@@ -1038,6 +1111,11 @@ def monitors(ctx):
         ctx.count("scenario:" + sc["mode"])
         for k in total:
             total[k] += stats.get(k, 0)
+        if fails and sc_ambiguous(sc):
+            # the recorded limitation (Coq: `ambiguous rp base p`), hit by a random draw
+            ctx.violation("C18 monitor: %s" % fails[0].step, dict(scenario=sc, step=fails[0].step, detail=fails[0].info, last_requests=log),
+                          signature=KNOWN_AMBIGUOUS)
+            continue
         for fail in fails:
             ctx.count("monitor-failure:" + fail.step)
             key = (fail.step, idx if idx < len(FIXED_SCENARIOS) else None)
@@ -1076,13 +1154,13 @@ def replay(ctx, path):
             print("passes against " + core.REPO)
         return 1 if fails else 0
     if rep.get("monitor") == "same_decoding":
-        with X.fast_server(SD_CONF) as srv:
+        with X.fast_server(with_encoding(SD_CONF, rep.get("encoding"))) as srv:
             fr = sd_front(srv, rep["base"])
             if rep["base"] == "/r":
                 for top in ("/2u/", "/xu/"):
                     srv.mkcol(top), srv.mkcalendar(top + "cal/")
             if rep["kind"] == "url":
-                bad = sd_check_url(srv, fr, rep["base"], rep["url"], rep["expected"], "replay")
+                bad = sd_check_url(srv, fr, rep["base"], rep["url"], rep["expected"], "replay", rep.get("encoding", "utf-8"))
             else:
                 bad = sd_check_outside(srv, fr, rep["base"], rep["url"], "replay")
             print("requests:", fr.log)
